@@ -74,13 +74,13 @@ MsgSetTime ==     \* mid.tracks[t][i].time = v
 MsgSetAttr ==     \* mid.tracks[t][i].note = ... / .tempo = ...  (in place, same delta)
   /\ "msg_attr" \in OpSet
   /\ \E t \in DOMAIN tracks : \E i \in DOMAIN tracks[t] :
-       /\ tracks[t][i].id # 0
+       /\ tracks[t][i].id \notin {0, 200}
        /\ Edit("msg_attr", t, i, tracks[t][i].id + 30, [tracks EXCEPT ![t][i].id = @ + 30], TRUE)
   /\ UNCHANGED nextid
 MsgReplace ==     \* mid.tracks[t][i] = msg   (a new message with the same delta)
   /\ "msg_replace" \in OpSet
   /\ \E t \in DOMAIN tracks : \E i \in DOMAIN tracks[t] :
-       /\ tracks[t][i].id # 0
+       /\ tracks[t][i].id \notin {0, 200}
        /\ Edit("msg_replace", t, i, tracks[t][i].id + 60, [tracks EXCEPT ![t][i].id = @ + 60], TRUE)
   /\ UNCHANGED nextid
 MsgSwapTimes ==   \* the deltas of two neighbours are exchanged (the track's total is unchanged)
@@ -89,6 +89,19 @@ MsgSwapTimes ==   \* the deltas of two neighbours are exchanged (the track's tot
        /\ i < Len(tracks[t]) /\ tracks[t][i].dt # tracks[t][i + 1].dt
        /\ Edit("msg_swap", t, i, 0, [tracks EXCEPT ![t][i].dt = tracks[t][i + 1].dt,
                                                    ![t][i + 1].dt = tracks[t][i].dt], TRUE)
+  /\ UNCHANGED nextid
+TrackSlice ==     \* mid.tracks[t] = mid.tracks[t][1:]   (a slice of a MidiTrack is a MidiTrack)
+  /\ "track_slice" \in OpSet
+  /\ \E t \in DOMAIN tracks : tracks[t] # <<>> /\
+       Edit("track_slice", t, 0, 0, [tracks EXCEPT ![t] = Tail(@)], TRUE)
+  /\ UNCHANGED nextid
+TrackName ==      \* mid.tracks[t].name = '...'  inserts a track_name message (id 200, delta 0)
+                  \* at the front unless the track already has one
+  /\ "track_name" \in OpSet
+  /\ \E t \in DOMAIN tracks : Len(tracks[t]) < 4 /\
+       Edit("track_name", t, 0, 0,
+            IF \E i \in DOMAIN tracks[t] : tracks[t][i].id = 200 THEN tracks
+            ELSE [tracks EXCEPT ![t] = <<Ev(0, 200)>> \o @], TRUE)
   /\ UNCHANGED nextid
 SetTpb ==
   /\ "set_tpb" \in OpSet
@@ -114,7 +127,8 @@ Save ==           \* save() writes the tracks directly
 Init == /\ ftype = 1 /\ tpb = 480 /\ tracks = <<>> /\ memo = None /\ hist = <<>> /\ nextid = 1
 Next == /\ Len(hist) < MaxOps
         /\ \/ AddTrack \/ TracksAppend \/ TracksRemove \/ MsgAppend \/ MsgInsert \/ MsgDelete
-           \/ MsgSetTime \/ MsgSetAttr \/ MsgReplace \/ MsgSwapTimes \/ SetTpb \/ SetType
+           \/ MsgSetTime \/ MsgSetAttr \/ MsgReplace \/ MsgSwapTimes \/ TrackSlice \/ TrackName
+           \/ SetTpb \/ SetType
            \/ Observe("iterate") \/ Observe("length") \/ Observe("merged_track") \/ Observe("play") \/ Save
 Spec == Init /\ [][Next]_vars
 
@@ -133,6 +147,7 @@ OpCode(op) == CASE op = "add_track" -> 1 [] op = "tracks_append" -> 2 [] op = "t
                 [] op = "iterate" -> 10 [] op = "length" -> 11 [] op = "merged_track" -> 12
                 [] op = "save" -> 13 [] op = "play" -> 14
                 [] op = "msg_attr" -> 15 [] op = "msg_replace" -> 16 [] op = "msg_swap" -> 17
+                [] op = "track_slice" -> 18 [] op = "track_name" -> 19
 NObs == Cardinality({i \in DOMAIN hist : IsObs(hist[i]) \/ hist[i].op = "save"})
 Emit == (Len(hist) = MaxOps /\ NObs >= 1 /\ (IsObs(hist[MaxOps]) \/ hist[MaxOps].op = "save")) =>
   PrintT(ToString(<<"EMIT", Len(hist)>> \o
